@@ -335,6 +335,16 @@ fn run_schedules(rep: &Report, tier: Tier) {
             let c2 = cfg.clone();
             scen.push(super::c06::explore_batch(rep, "lifecycle", &cfg, variant, discipline, false, max_bound, slice, &|o| batch_lifecycle(o, &bs, &c2)));
         }
+        // the same pipelined run with every synchronisation operation a decision point (one deviation quick)
+        {
+            let mut cfg = TrkCfg::new(kind);
+            cfg.shards = 1;
+            cfg.voting_shards = 2;
+            cfg.max_idle = 2;
+            let bs = super::c06::batches(1);
+            let c2 = cfg.clone();
+            scen.push(super::c06::explore_batch(rep, "lifecycle", &cfg, 1, 1, true, tier.pick(1, 2), slice, &|o| batch_lifecycle(o, &bs, &c2)));
+        }
     }
     rep.extra("schedule_part", json!(scen));
 }
